@@ -4,6 +4,7 @@ import AfkakProofs.Group.FencedTrace
 import AfkakProofs.Group.DrainStep
 import AfkakProofs.Group.OneJoin
 import AfkakProofs.Group.HbStable
+import AfkakProofs.Group.Compose
 import AfkakProps.Open.C16
 /-!
 # C16 — generation fencing: no partition consumer outlives its group generation
@@ -114,6 +115,27 @@ theorem C16_one_join (cfg : Cfg) (evs : List Ev) : oneJoin (toMSteps (run cfg ev
 theorem C16_heartbeat_only_stable (cfg : Cfg) (evs : List Ev) : heartbeatOnlyStable (toMSteps (run cfg evs)) = true :=
   heartbeatOnlyStable_run cfg evs
 
+/-- **Composition with the consumer package** (`Afkak.Consumer`, properties C02/C03/C13/C14): for ANY
+    group history, any consumer record `c` the group holds and ANY run of the consumer model taken
+    as that consumer's behaviour, every commit request it emits goes on the wire with the
+    (generation, member id, partition) the consumer was STARTED with — the very `consumerStart`
+    observation is in the group's trace — and whenever the consumer is still running that pair is
+    the member's CURRENT generation and member id and the partition is currently assigned.
+    (`wireCommits` tags the consumer model's `commitReq` with the construction-time
+    `commit_generation_id` / `commit_consumer_id`; that `consumer.py` assigns them only in
+    `__init__`, sends them in `_send_commit_request`, and that `on_join_complete` passes the member's
+    current ids is checked on the source by the extractor: `groupCommitIdentityFixed`.) -/
+theorem C16_commit_fencing (cfg : Cfg) (evs : List Ev) (c : Con) (hc : c ∈ (final cfg evs).cons)
+    (ccfg : Afkak.Consumer.Cfg) (script : List Afkak.Consumer.PEntry) (cevs : List Afkak.Consumer.Ev) :
+    ∀ w ∈ wireCommits c (Afkak.Consumer.trace ccfg script cevs),
+      (∃ off, Ob.consumerStart c.cid w.topic w.part w.gen w.member off ∈ allObs (run cfg evs)) ∧
+      (c.phase = .running →
+        w.gen = (final cfg evs).gen ∧ w.member = (final cfg evs).member ∧ (w.topic, w.part) ∈ (final cfg evs).asg) :=
+  commit_fencing cfg evs c hc ccfg script cevs
+
+/-- the extractor found the three source facts `C16_commit_fencing` rests on -/
+theorem C16_commit_identity_source : groupCommitIdentityFixed = true := by decide
+
 def exCfg : Cfg := { initialBackoffMs := 1000, retryBackoffMs := 125, fatalBackoffMs := 10000, heartbeatMs := 5000 }
 
 /-! Non-vacuity: a reachable state with running consumers of generation 5, one with a join in
@@ -127,6 +149,16 @@ example : (final exCfg (exStable ++ [.stop])).stopping = false ∧
     (final exCfg (exStable ++ [.stop, .consumerDown 0 true, .consumerDown 1 true])).stopping = true := by decide +kernel
 example : ((final exCfg (exStable ++ [.advance 5, .fire 0 none, .hbDone (.err .illegalGeneration)])).cons.map (·.phase)) =
     [.stopped, .stopped] := by decide +kernel
+
+/-! Non-vacuity of the composition: the first consumer of `exStable`, behaving as a consumer-model run
+that processes offset 42 and auto-commits it, puts exactly one commit on the wire — with generation 5,
+member 1, its own partition. -/
+def exConsumerCfg : Afkak.Consumer.Cfg :=
+  { group := true, autoN := 1, autoS := 0, bufInit := 100, bufMax := none, retryInit := 1, retryMax := 2, maxAttempts := 0, reset := none }
+example : ((final exCfg exStable).cons.head?.map fun c =>
+      wireCommits c (Afkak.Consumer.trace exConsumerCfg [⟨[], .ok⟩]
+        [.start Afkak.Consts.offsetCommitted, .offsetFetchOk 0 41, .fetchOk 1 ⟨[⟨42, 0⟩], .done⟩])) =
+    some [⟨some 5, 1, 1, 0, 42⟩] := by decide +kernel
 
 end Afkak.Props.C16
 
@@ -145,6 +177,8 @@ C16_fenced_trace
 C16_join_after_drain
 C16_one_join
 C16_heartbeat_only_stable
+C16_commit_fencing
+C16_commit_identity_source
 -/
 /- OPEN_STATEMENTS
 -/
